@@ -76,6 +76,26 @@ pub open spec fn dec9_ok(de: Pt2, id: Seq<u8>, ct: Seq<u8>, m: Seq<u8>) -> bool 
            let k = s_kdf(ct.subrange(1, 65) + gt_bytes(e9(de, c1)) + id, (c2.len() + 32) as nat);
            x < P9() && y < P9() && on_curve1(c1) && c3 == s_mac9(k.subrange(c2.len() as int, c2.len() as int + 32), c2) && m == s_xor(c2, k.subrange(0, c2.len() as int)) })
 }
+// ---- acceptance side (completeness) of decrypt: used ONLY by the completeness clauses, dec9_ok is unchanged
+pub open spec fn s_all_zero(s: Seq<u8>) -> bool { forall|i: int| 0 <= i < s.len() ==> s[i] == 0 }
+// the KDF input C1 || w' || ID_B that decryption derives from the ciphertext
+pub open spec fn dec9_kz(de: Pt2, id: Seq<u8>, ct: Seq<u8>) -> Seq<u8> {
+    ct.subrange(1, 65) + gt_bytes(e9(de, Pt1::Aff { x: be_val(ct.subrange(1, 33)), y: be_val(ct.subrange(33, 65)) })) + id
+}
+// GM/T 0044.4 7.1 B3: K1' (the first mlen bytes of KDF(C1 || w' || ID_B, mlen + 32)) is not all zero
+pub open spec fn dec9_k1_nz(de: Pt2, id: Seq<u8>, ct: Seq<u8>) -> bool {
+    let c2 = ct.subrange(97, ct.len() as int);
+    !s_all_zero(s_kdf(dec9_kz(de, id, ct), (c2.len() + 32) as nat).subrange(0, c2.len() as int))
+}
+// GM/T 0044.4 6.1 A6: the K1 that encryption uses (first mlen bytes of KDF(C1 || w || ID_B, mlen + 32)) for the nonce r
+pub open spec fn enc9_k1(r: int, ppube: Pt1, id: Seq<u8>, mlen: nat) -> Seq<u8> {
+    let qb = g1_add(g1_smul(s_h1(id, 3u8), G1P()), ppube); let c1 = g1_smul(r, qb);
+    let w = gt_pow(e9(G2P(), ppube), r);
+    s_kdf(xy1_bytes(c1) + gt_bytes(w) + id, (mlen + 32) as nat).subrange(0, mlen as int)
+}
+pub open spec fn enc9_from_nonce_k1(r: int, ppube: Pt1, id: Seq<u8>, m: Seq<u8>, c: Seq<u8>) -> bool {
+    enc9_from_nonce(r, ppube, id, m, c) && !s_all_zero(enc9_k1(r, ppube, id, m.len()))
+}
 // ---------------- GM/T 0044.3 key exchange ----------------
 pub open spec fn exch9_key(ida: Seq<u8>, idb: Seq<u8>, ra: Pt1, rb: Pt1, g1: Gt, g2: Gt, g3: Gt, klen: nat) -> Seq<u8> {
     s_kdf(ida + idb + xy1_bytes(ra) + xy1_bytes(rb) + gt_bytes(g1) + gt_bytes(g2) + gt_bytes(g3), klen)
@@ -296,6 +316,251 @@ proof fn k9_ver_final(ppubs: Pt2, id: Seq<u8>, m: Seq<u8>, h: int, s: Pt1, h1: i
         u == e9(pq, s), w == gt_mul(u, t), wb == gt_bytes(w), h2 == s_h2(m, wb), 1 <= h2, h2 == h
     ensures ver9_ok(ppubs, id, m, h, s)
 { }
+// ---------------- completeness: one lemma per rejection site, "under the branch condition the acceptance predicate is false"
+// a digest word below N is a canonical field word, so FieldElement::is_zero decides val4 == 0 for it
+proof fn k9_h_canon(a: Seq<u64>) requires a.len() == 4
+    ensures 0 <= val4(a), val4(a) < N9() ==> canon9(a) && ((seq![fe9(a)] == seq![0int]) == (val4(a) == 0))
+{
+    lemma_params9(); lemma_val4_bounds(a);
+    if val4(a) < N9() { k9_fe_zero(a); }
+}
+proof fn k9_ver_rej_h(ppubs: Pt2, id: Seq<u8>, m: Seq<u8>, h: int, s: Pt1)
+    requires h == 0 || h >= N9(), 0 <= h
+    ensures !ver9_ok(ppubs, id, m, h, s)
+{ }
+proof fn k9_ver_rej_curve(ppubs: Pt2, id: Seq<u8>, m: Seq<u8>, h: int, s: Pt1)
+    requires !on_curve1(s)
+    ensures !ver9_ok(ppubs, id, m, h, s)
+{ }
+proof fn k9_ver_rej_hash(ppubs: Pt2, id: Seq<u8>, m: Seq<u8>, h: int, s: Pt1, h1: int, pq: Pt2, g: Gt, t: Gt, u: Gt, w: Gt, wb: Seq<u8>, h2: int)
+    requires h1 == s_h1(id, 1u8), pq == g2_add(ppubs, g2_smul(h1, G2P())), g == e9(ppubs, G1P()), t == gt_pow(g, h),
+        u == e9(pq, s), w == gt_mul(u, t), wb == gt_bytes(w), h2 == s_h2(m, wb), h2 != h
+    ensures !ver9_ok(ppubs, id, m, h, s)
+{ }
+proof fn k9_dec_rej_len(de: Pt2, id: Seq<u8>, ct: Seq<u8>)
+    requires ct.len() <= 97 || ct.len() > 97 + 255
+    ensures forall|m: Seq<u8>| !dec9_ok(de, id, ct, m)
+{ }
+proof fn k9_dec_rej_hdr(de: Pt2, id: Seq<u8>, ct: Seq<u8>)
+    requires ct[0] != 4 || be_val(ct.subrange(1, 33)) >= P9() || be_val(ct.subrange(33, 65)) >= P9()
+    ensures forall|m: Seq<u8>| !dec9_ok(de, id, ct, m)
+{ }
+proof fn k9_dec_rej_curve(de: Pt2, id: Seq<u8>, ct: Seq<u8>, c1: Pt1)
+    requires c1 == (Pt1::Aff { x: be_val(ct.subrange(1, 33)), y: be_val(ct.subrange(33, 65)) }), !on_curve1(c1)
+    ensures forall|m: Seq<u8>| !dec9_ok(de, id, ct, m)
+{ }
+// kd = KDF(zz, mlen + 32), u = MAC(K2', C2) as computed, differs from the C3 field
+proof fn k9_dec_rej_mac(de: Pt2, id: Seq<u8>, ct: Seq<u8>, zz: Seq<u8>, mlen: int, kd: Seq<u8>, u: Seq<u8>)
+    requires 97 < ct.len(), mlen == ct.len() - 97, zz == dec9_kz(de, id, ct), kd == s_kdf(zz, (mlen + 32) as nat),
+        u == s_mac9(kd.subrange(mlen, mlen + 32), ct.subrange(97, ct.len() as int)), u != ct.subrange(65, 97)
+    ensures forall|m: Seq<u8>| !dec9_ok(de, id, ct, m)
+{
+    let c2 = ct.subrange(97, ct.len() as int);
+    assert(c2.len() == mlen);
+    assert((c2.len() + 32) as nat == (mlen + 32) as nat);
+}
+// the first mlen bytes of the 287-byte stream that the code derives are the first mlen bytes of KDF(z, mlen + 32)
+proof fn k9_k1_of_287(zz: Seq<u8>, mlen: int, k1: Seq<u8>)
+    requires 1 <= mlen <= 255, k1 == s_kdf(zz, 287).subrange(0, mlen)
+    ensures k1 == s_kdf(zz, (mlen + 32) as nat).subrange(0, mlen)
+{
+    let n = (mlen + 32) as nat;
+    k9_kdf_prefix(zz, 287, n); k9_kdf_len(zz, n); k9_kdf_len(zz, 287);
+    assert(s_kdf(zz, 287).subrange(0, n as int).subrange(0, mlen) =~= s_kdf(zz, 287).subrange(0, mlen));
+}
+// the K1' test of decrypt (B3): k1 = the slice of the derived stream that the code tests
+proof fn k9_dec_k1(de: Pt2, id: Seq<u8>, ct: Seq<u8>, zz: Seq<u8>, k1: Seq<u8>)
+    requires 97 < ct.len() <= 97 + 255, zz == dec9_kz(de, id, ct), k1 == s_kdf(zz, 287).subrange(0, ct.len() - 97)
+    ensures dec9_k1_nz(de, id, ct) == !s_all_zero(k1)
+{
+    k9_k1_of_287(zz, ct.len() - 97, k1);
+    let c2 = ct.subrange(97, ct.len() as int);
+    assert(c2.len() == ct.len() - 97);
+    assert((c2.len() + 32) as nat == (ct.len() - 97 + 32) as nat);
+}
+proof fn k9_dec_rej_zero(de: Pt2, id: Seq<u8>, ct: Seq<u8>, k1: Seq<u8>)
+    requires s_all_zero(k1), dec9_k1_nz(de, id, ct) == !s_all_zero(k1)
+    ensures !dec9_k1_nz(de, id, ct)
+{ }
+// the K1 test of encrypt (A6)
+proof fn k9_enc_k1(r: int, ppube: Pt1, id: Seq<u8>, mlen: int, zz: Seq<u8>, k1: Seq<u8>)
+    requires 1 <= mlen <= 255, k1 == s_kdf(zz, 287).subrange(0, mlen), !s_all_zero(k1),
+        zz == xy1_bytes(g1_smul(r, g1_add(g1_smul(s_h1(id, 3u8), G1P()), ppube))) + gt_bytes(gt_pow(e9(G2P(), ppube), r)) + id
+    ensures !s_all_zero(enc9_k1(r, ppube, id, mlen as nat))
+{ k9_k1_of_287(zz, mlen, k1); }
+// one step of the all-zero scan over a prefix
+proof fn k9_zero_step(x: Seq<u8>, i: int) requires 0 <= i < x.len()
+    ensures s_all_zero(x.subrange(0, i + 1)) == (s_all_zero(x.subrange(0, i)) && x[i] == 0)
+{
+    let a = x.subrange(0, i); let b = x.subrange(0, i + 1);
+    assert(b[i] == x[i]);
+    if s_all_zero(b) { assert forall|j: int| 0 <= j < a.len() implies a[j] == 0 by { assert(b[j] == a[j]); } }
+    if s_all_zero(a) && x[i] == 0 { assert forall|j: int| 0 <= j < b.len() implies b[j] == 0 by { if j < i { assert(b[j] == a[j]); } } }
+}
+// the scan over the first klen bytes of a klen-byte key found no non-zero byte
+proof fn k9_exch_rej_zero(sk: Seq<u8>, klen: int) requires sk.len() == klen, s_all_zero(sk.subrange(0, klen))
+    ensures s_all_zero(sk)
+{ assert(sk.subrange(0, klen) =~= sk); }
+// ---------------- scheme-level composition (GM/T 0044.4): what encrypt produces for (ke, Ppub-e = [ke]P1) is accepted by decrypt
+// with the extracted key de = [ke (H1(ID||03) + ke)^-1]P2, and decrypts to M. Uses the assumed bilinearity axiom ax9_bilinear
+// and the G1 group axioms of sm9_math (closed / assoc / order of P1); e9 stays abstract.
+proof fn k9_smul1_one(a: Pt1) ensures g1_smul(1, a) == a, g1_smul(0, a) == Pt1::Inf
+{ assert(g1_smul(0, a) == Pt1::Inf); assert(g1_smul(1, a) == g1_add(g1_smul(0, a), a)); }
+proof fn k9_smul2_one(a: Pt2) ensures g2_smul(1, a) == a
+{ assert(g2_smul(0, a) == Pt2::Inf); assert(g2_smul(1, a) == g2_add(g2_smul(0, a), a)); }
+proof fn k9_smul1_closed(k: int, a: Pt1) requires on_curve1(a) ensures on_curve1(g1_smul(k, a)) decreases k
+{ if k > 0 { k9_smul1_closed(k - 1, a); ax9_g1_closed(g1_smul(k - 1, a), a); } }
+proof fn k9_smul1_add(j: int, k: int, a: Pt1) requires on_curve1(a), j >= 0, k >= 0 ensures g1_smul(j + k, a) == g1_add(g1_smul(j, a), g1_smul(k, a)) decreases k
+{
+    k9_smul1_closed(j, a);
+    if k > 0 { k9_smul1_add(j, k - 1, a); k9_smul1_closed(k - 1, a); ax9_g1_assoc(g1_smul(j, a), g1_smul(k - 1, a), a); }
+}
+proof fn k9_smul1_mul(j: int, k: int, a: Pt1) requires on_curve1(a), j >= 0, k >= 0 ensures g1_smul(j * k, a) == g1_smul(j, g1_smul(k, a)) decreases j
+{
+    if j > 0 {
+        k9_smul1_mul(j - 1, k, a);
+        vstd::arithmetic::mul::lemma_mul_is_distributive_sub_other_way(k, j, 1);
+        assert(j * k == (j - 1) * k + k);
+        vstd::arithmetic::mul::lemma_mul_nonnegative(j - 1, k);
+        k9_smul1_add((j - 1) * k, k, a);
+    } else { assert(0 * k == 0); }
+}
+proof fn k9_p1_curve() ensures on_curve1(G1P()) { lemma_params9(); }
+// multiples of P1 depend on the scalar modulo N only
+proof fn k9_smul1_mod(a: int) requires a >= 0 ensures g1_smul(a, G1P()) == g1_smul(a % N9(), G1P())
+{
+    lemma_params9(); k9_p1_curve();
+    let n = N9(); let q = a / n; let b = a % n;
+    lemma_fundamental_div_mod(a, n);
+    lemma_mod_bound(a, n);
+    lemma_div_pos_is_pos(a, n);
+    vstd::arithmetic::mul::lemma_mul_nonnegative(n, q);
+    lemma_mod_multiples_basic(q, n);
+    vstd::arithmetic::mul::lemma_mul_is_commutative(q, n);
+    ax9_g1_order(n * q);
+    k9_smul1_add(n * q, b, G1P());
+}
+// the modular heart: t2 (h1 + ke) r = ke r (mod N), and r (h1 + ke) != 0 (mod N)
+proof fn k9_dec_scalar(ke: int, h1: int, r: int)
+    requires 1 <= ke < N9(), 1 <= h1 < N9(), (h1 + ke) % N9() != 0, 1 <= r < N9()
+    ensures ({ let t2 = (ke * inv_n9((h1 + ke) % N9())) % N9();
+        (t2 * (r * (h1 + ke))) % N9() == (r * ke) % N9() && (r * (h1 + ke)) % N9() != 0 && 0 <= t2 && r * (h1 + ke) >= 0 && r * ke >= 0 && t2 * (r * (h1 + ke)) >= 0 })
+{
+    lemma_params9();
+    let n = N9(); let sm = (h1 + ke) % n; let i = inv_n9(sm); let t2 = (ke * i) % n; let hk = h1 + ke;
+    lemma_mod_bound(hk, n); lemma_mod_twice(hk, n);
+    ax9_inv_n(sm);
+    lemma_mod_bound(ke * i, n);
+    vstd::arithmetic::mul::lemma_mul_nonnegative(r, hk); vstd::arithmetic::mul::lemma_mul_nonnegative(r, ke); vstd::arithmetic::mul::lemma_mul_nonnegative(t2, r * hk);
+    // (i * hk) % n == 1
+    lemma_mul_mod_noop_general(i, hk, n);
+    vstd::arithmetic::mul::lemma_mul_is_commutative(i, sm);
+    assert((i * hk) % n == 1);
+    // first claim
+    lemma_mul_mod_noop_general(ke * i, r * hk, n);
+    assert((ke * i) * (r * hk) == (r * ke) * (i * hk)) by(nonlinear_arith);
+    lemma_mul_mod_noop_general(r * ke, i * hk, n);
+    assert((r * ke) * 1 == r * ke);
+    // second claim
+    if (r * hk) % n == 0 {
+        lemma_mul_mod_noop_general(r * hk, i, n);
+        assert(0 * i == 0);
+        lemma_small_mod(0, n as nat);
+        assert(((r * hk) * i) % n == 0);
+        vstd::arithmetic::mul::lemma_mul_is_associative(r, hk, i); vstd::arithmetic::mul::lemma_mul_is_commutative(hk, i);
+        assert((r * hk) * i == r * (i * hk));
+        lemma_mul_mod_noop_general(r, i * hk, n);
+        assert(r * 1 == r);
+        lemma_small_mod(r as nat, n as nat);
+        assert(false);
+    }
+}
+// the pairing identity of decryption: e(de, C1) = e(P2, Ppub-e)^r, and C1 = [r (h1 + ke)]P1 is a finite point of the curve
+proof fn k9_dec_pairing(ke: int, h1: int, r: int)
+    requires 1 <= ke < N9(), 1 <= h1 < N9(), (h1 + ke) % N9() != 0, 1 <= r < N9()
+    ensures ({ let t2 = (ke * inv_n9((h1 + ke) % N9())) % N9(); let ppube = g1_smul(ke, G1P());
+        let c1 = g1_smul(r, g1_add(g1_smul(h1, G1P()), ppube));
+        e9(g2_smul(t2, G2P()), c1) == gt_pow(e9(G2P(), ppube), r) && on_curve1(c1) && c1 != Pt1::Inf })
+{
+    lemma_params9(); k9_p1_curve(); lemma_params9_g2();
+    let p1 = G1P(); let p2 = G2P(); let g = e9(p2, p1);
+    let t2 = (ke * inv_n9((h1 + ke) % N9())) % N9(); let ppube = g1_smul(ke, p1);
+    let qb = g1_add(g1_smul(h1, p1), ppube); let c1 = g1_smul(r, qb);
+    let a = t2 * (r * (h1 + ke)); let b = r * ke; let e = r * (h1 + ke);
+    k9_dec_scalar(ke, h1, r);
+    k9_smul1_add(h1, ke, p1);
+    k9_smul1_mul(r, h1 + ke, p1);
+    assert(c1 == g1_smul(e, p1));
+    k9_smul1_closed(e, p1); k9_smul1_closed(ke, p1);
+    ax9_g1_order(e);
+    // left: e([t2]P2, [e]P1) = g^(t2 e)
+    ax9_bilinear(t2, e, p2, p1);
+    // right: e(P2, Ppub)^r = e([r]P2, [1]Ppub) = e([r]P2, [ke]P1) = g^(r ke)
+    ax9_bilinear(r, 1, p2, ppube); k9_smul1_one(ppube); assert(r * 1 == r);
+    ax9_bilinear(r, ke, p2, p1);
+    assert(gt_pow(e9(p2, ppube), r) == gt_pow(g, b));
+    // g^a = e(P2, [a]P1) = e(P2, [b]P1) = g^b
+    ax9_bilinear(1, a, p2, p1); ax9_bilinear(1, b, p2, p1); k9_smul2_one(p2);
+    assert(1 * a == a && 1 * b == b);
+    k9_smul1_mod(a); k9_smul1_mod(b);
+    assert(gt_pow(g, a) == gt_pow(g, b));
+}
+proof fn k9_ct_parts(x: int, y: int, c3: Seq<u8>, c2: Seq<u8>, c: Seq<u8>)
+    requires 0 <= x < P9(), 0 <= y < P9(), c3.len() == 32, c == seq![4u8] + (be_bytes(x, 32) + be_bytes(y, 32)) + c3 + c2
+    ensures c.len() == 97 + c2.len(), c[0] == 4, c.subrange(1, 65) == be_bytes(x, 32) + be_bytes(y, 32),
+        be_val(c.subrange(1, 33)) == x, be_val(c.subrange(33, 65)) == y, c.subrange(65, 97) == c3, c.subrange(97, c.len() as int) == c2
+{
+    lemma_params9(); lemma_pow256n_32();
+    lemma_be_bytes_len(x, 32); lemma_be_bytes_len(y, 32);
+    lemma_be_roundtrip(x, 32); lemma_be_roundtrip(y, 32);
+    assert(c.subrange(1, 65) =~= be_bytes(x, 32) + be_bytes(y, 32));
+    assert(c.subrange(1, 33) =~= be_bytes(x, 32));
+    assert(c.subrange(33, 65) =~= be_bytes(y, 32));
+    assert(c.subrange(65, 97) =~= c3);
+    assert(c.subrange(97, c.len() as int) =~= c2);
+}
+proof fn k9_xor_inv(k: Seq<u8>, m: Seq<u8>) requires k.len() == m.len() ensures s_xor(s_xor(k, m), k) =~= m
+{
+    assert forall|i: int| 0 <= i < m.len() implies s_xor(s_xor(k, m), k)[i] == m[i] by {
+        let a = k[i]; let b = m[i];
+        assert((a ^ b) ^ a == b) by(bit_vector);
+    }
+}
+// THEOREM: every ciphertext that satisfies encrypt's postcondition (including "K1 not all zero") under the master key pair
+// (ke, [ke]P1) satisfies the premise of decrypt's completeness clause for the key extracted for the same identity, with message M
+proof fn k9_enc_dec_theorem(ke: int, id: Seq<u8>, r: int, m: Seq<u8>, c: Seq<u8>)
+    requires 1 <= ke < N9(), (s_h1(id, 3u8) + ke) % N9() != 0, 1 <= m.len() <= 255,
+        enc9_from_nonce_k1(r, g1_smul(ke, G1P()), id, m, c)
+    ensures dec9_ok(g2_smul((ke * inv_n9((s_h1(id, 3u8) + ke) % N9())) % N9(), G2P()), id, c, m),
+        dec9_k1_nz(g2_smul((ke * inv_n9((s_h1(id, 3u8) + ke) % N9())) % N9(), G2P()), id, c)
+{
+    let h1 = s_h1(id, 3u8); let ppube = g1_smul(ke, G1P());
+    let de = g2_smul((ke * inv_n9((h1 + ke) % N9())) % N9(), G2P());
+    k9_h_range(1u8, id + seq![3u8]);
+    k9_dec_pairing(ke, h1, r);
+    let qb = g1_add(g1_smul(h1, G1P()), ppube); let c1 = g1_smul(r, qb);
+    let w = gt_pow(e9(G2P(), ppube), r);
+    let z = xy1_bytes(c1) + gt_bytes(w) + id;
+    let n = (m.len() + 32) as nat; let ml = m.len() as int;
+    let k = s_kdf(z, n);
+    let k1 = k.subrange(0, ml); let c2 = s_xor(k1, m);
+    let c3 = s_mac9(k.subrange(ml, ml + 32), c2);
+    assert(c == seq![4u8] + xy1_bytes(c1) + c3 + c2);
+    k9_kdf_len(z, n); lemma_sm3_len(c2 + k.subrange(ml, ml + 32));
+    assert(c2.len() == ml);
+    let x = pt1_x(c1); let y = pt1_y(c1);
+    assert(c1 == Pt1::Aff { x, y });
+    k9_ct_parts(x, y, c3, c2, c);
+    let cc2 = c.subrange(97, c.len() as int);
+    assert(cc2.len() == ml);
+    assert((cc2.len() + 32) as nat == n);
+    assert(e9(de, c1) == w);
+    assert(dec9_kz(de, id, c) == z);
+    k9_xor_inv(k1, m);
+    assert(k1 == enc9_k1(r, ppube, id, m.len()));
+    assert(dec9_ok(de, id, c, m));
+    assert(dec9_k1_nz(de, id, c));
+}
 proof fn k9_sign_final(r0: Seq<u64>, ppubs: Pt2, ds: Pt1, m: Seq<u8>, g: Gt, h: int, l: int, s: Pt1)
     requires csprng9(r0), 1 <= val4(r0) < N9() - 1, g == e9(ppubs, G1P()), h == s_h2(m, gt_bytes(gt_pow(g, val4(r0)))),
         l == (val4(r0) - h) % N9(), l != 0, s == g1_smul(l, ds)
@@ -404,10 +669,13 @@ impl Sm9EncKey {
     fn decrypt(&self, idb: &[u8], data: &[u8]) -> (res: Sm9Result<Vec<u8>>)
         requires valid2(self.de), idb@.len() < 0x1000_0000_0000_0000
         ensures res is Ok ==> dec9_ok(abs2(self.de), idb@, data@, res->Ok_0@),
+            res is Ok ==> dec9_k1_nz(abs2(self.de), idb@, data@),
+            (exists|m: Seq<u8>| dec9_ok(abs2(self.de), idb@, data@, m)) && dec9_k1_nz(abs2(self.de), idb@, data@) ==> res is Ok,
     {
         hide(f12_bytes); hide(val4);
         
         if data.len() <= 65 + 32 || data.len() > 65 + 32 + 255 {
+            proof { k9_dec_rej_len(abs2(self.de), idb@, data@); }
             return Err(Sm9Error::InvalidFieldLen);
         }
         let c1_bytes = &data[0..65];
@@ -425,11 +693,13 @@ impl Sm9EncKey {
             || u256_cmp(&u256_from_be_bytes(&c1_bytes[1..33]), &SM9_P) >= 0
             || u256_cmp(&u256_from_be_bytes(&c1_bytes[33..65]), &SM9_P) >= 0
         {
+            proof { k9_is_int(c1_bytes@[0] as int, data@[0] as int); k9_dec_rej_hdr(abs2(self.de), idb@, data@); }
             return Err(Sm9Error::InvalidPoint);
         }
         let c1 = Point::from_bytes(c1_bytes);
-        proof { k9_z_one(c1); }
+        proof { k9_z_one(c1); k9_is_pt1(abs1(c1), Pt1::Aff { x: be_val(data@.subrange(1, 33)), y: be_val(data@.subrange(33, 65)) }); }
         if !c1.is_on_curve() {
+            proof { k9_dec_rej_curve(abs2(self.de), idb@, data@, abs1(c1)); }
             return Err(Sm9Error::InvalidPoint);
         }
         let w = sm9_u256_pairing(&self.de, &c1);
@@ -445,14 +715,18 @@ impl Sm9EncKey {
             assert(c1_bytes@.subrange(1, 65) =~= data@.subrange(1, 65));
             assert(k_append@ =~= zz);
             k9_kdf_len(zz, 287);
+            k9_is_bytes(zz, dec9_kz(abs2(self.de), idb@, data@));
         }
         let k = kdf(&k_append, (255 + 32) as usize);
         let ghost kk = k@;
-        fn is_zero(x: &Vec<u8>) -> bool {
+        fn is_zero(x: &Vec<u8>) -> (r: bool)
+            ensures r == s_all_zero(x@)
+        {
             shim_all_zero(x)
         }
 
-        if !is_zero(&k) {
+        proof { k9_dec_k1(abs2(self.de), idb@, data@, zz, kk.subrange(0, data@.len() - 97)); }
+        if !is_zero(&k[..data.len() - (65 + 32)].to_vec()) {
             let k = k.as_slice();
             let mlen = data.len() - (65 + 32);
             let k1 = &k[0..mlen];
@@ -468,6 +742,7 @@ impl Sm9EncKey {
             }
             let u = sm9_mac(&k2[..32], c2);
             if shim_ne_slices(u.as_slice(), c3) {
+                proof { k9_dec_rej_mac(abs2(self.de), idb@, data@, zz, mlen as int, s_kdf(zz, (mlen + 32) as nat), u@); }
                 return Err(Sm9Error::InvalidDigest);
             }
             let m = xor(c2, &k1, k1.len());
@@ -477,6 +752,7 @@ impl Sm9EncKey {
             }
             Ok(m)
         } else {
+            proof { k9_dec_rej_zero(abs2(self.de), idb@, data@, kk.subrange(0, data@.len() - 97)); }
             Err(Sm9Error::KdfHashError)
         }
     }
@@ -506,6 +782,7 @@ impl Sm9EncMasterKey {
     fn encrypt(&self, idb: &[u8], data: &[u8]) -> (c: Vec<u8>)
         requires valid1(self.ppube), 1 <= data@.len() <= 255, idb@.len() < 0x1000_0000_0000_0000
         ensures exists|r: Seq<u64>| #[trigger] csprng9(r) && enc9_from_nonce(val4(r), abs1(self.ppube), idb@, data@, c@),
+            exists|r: Seq<u64>| #[trigger] csprng9(r) && enc9_from_nonce_k1(val4(r), abs1(self.ppube), idb@, data@, c@),
     {
         
         hide(f12_bytes); hide(val4);
@@ -521,8 +798,10 @@ impl Sm9EncMasterKey {
         loop
             invariant_except_break valid1(q), abs1(q) == qb, valid1(self.ppube), idb@.len() < 0x1000_0000_0000_0000,
                 val4(SM9_N_MINUS_ONE@) == N9() - 1, valid2(SM9_TWIST_POINT_MONT_P2), abs2(SM9_TWIST_POINT_MONT_P2) == G2P(),
+                1 <= data@.len() <= 255,
             ensures csprng9(r0), 1 <= val4(r0) < N9() - 1, valid1(c1), abs1(c1) == g1_smul(val4(r0), qb),
                 k@ == s_kdf(xy1_bytes(abs1(c1)) + gt_bytes(gt_pow(e9(G2P(), abs1(self.ppube)), val4(r0))) + idb@, 287),
+                !s_all_zero(k@.subrange(0, data@.len() as int)),
         {
             
             let r = sm9_random_u256(&SM9_N_MINUS_ONE);
@@ -552,13 +831,16 @@ impl Sm9EncMasterKey {
                 assert(gbuf@ == gt_bytes(abs12(g)));
                 assert(cbuf@.subrange(1, cbuf@.len() as int) =~= xy1_bytes(abs1(c1)));
                 assert(k_append@ =~= xy1_bytes(abs1(c1)) + gt_bytes(gt_pow(e9(G2P(), abs1(self.ppube)), val4(r0))) + idb@);
+                k9_kdf_len(k_append@, 287);
             }
             k = kdf(&k_append, (255 + 32) as usize);
-            fn is_zero(x: &Vec<u8>) -> bool {
+            fn is_zero(x: &Vec<u8>) -> (r: bool)
+                ensures r == s_all_zero(x@)
+            {
                 shim_all_zero(x)
             }
 
-            if !is_zero(&k) {
+            if !is_zero(&k[..data.len()].to_vec()) {
                 break;
             }
         }
@@ -586,6 +868,8 @@ impl Sm9EncMasterKey {
         proof {
             assert(c@ =~= seq![4u8] + xy1_bytes(abs1(c1)) + c3@ + c2@);
             assert(csprng9(r0) && enc9_from_nonce(val4(r0), abs1(self.ppube), idb@, data@, c@));
+            k9_enc_k1(val4(r0), abs1(self.ppube), idb@, mlen, zz, k@.subrange(0, mlen));
+            assert(csprng9(r0) && enc9_from_nonce_k1(val4(r0), abs1(self.ppube), idb@, data@, c@));
         }
         c
     }
@@ -901,14 +1185,17 @@ impl Sm9SignMasterKey {
     fn verify_sign(&self, id: &[u8], data: &[u8], h: &U256, s: &Point) -> (res: Sm9Result<()>)
         requires valid2(self.ppubs), wf1(*s), val4(s.z@) != 0, id@.len() < 0x1000_0000_0000_0000, data@.len() < 0x1000_0000_0000_0000
         ensures res is Ok ==> ver9_ok(abs2(self.ppubs), id@, data@, val4(h@), abs1(*s)),
+            ver9_ok(abs2(self.ppubs), id@, data@, val4(h@), abs1(*s)) ==> res is Ok,
     {
         
         hide(f12_bytes); hide(val4);
-        proof { lemma_key9_consts(); }
+        proof { lemma_key9_consts(); k9_h_canon(h@); }
         if h.is_zero() || u256_cmp(h, &SM9_N) >= 0 {
+            proof { k9_ver_rej_h(abs2(self.ppubs), id@, data@, val4(h@), abs1(*s)); }
             return Err(Sm9Error::InvalidDigest);
         }
         if !s.is_on_curve() {
+            proof { k9_ver_rej_curve(abs2(self.ppubs), id@, data@, val4(h@), abs1(*s)); }
             return Err(Sm9Error::InvalidPoint);
         }
         let g = sm9_u256_pairing(&self.ppubs, &SM9_POINT_MONT_P1);
@@ -931,6 +1218,10 @@ impl Sm9SignMasterKey {
         proof { k9_gt_ser(w, wbuf@); }
         let h2 = sm9_u256_hash2(data, wbuf);
         if u256_cmp(&h2, h) != 0 {
+            proof {
+                k9_ver_rej_hash(abs2(self.ppubs), id@, data@, val4(h@), abs1(*s), val4(h1@), abs2(p), abs12(g), abs12(t), abs12(u), abs12(w),
+                    wbuf@, val4(h2@));
+            }
             Err(Sm9Error::InvalidDigest)
         } else {
             proof {
@@ -976,6 +1267,7 @@ fn exch_step_1b(
     requires valid1(msk.ppube), valid2(key.de), wf1(*ra), val4(ra.z@) != 0, 1 <= klen < 0x1_0000_0000,
         ida@.len() + idb@.len() < 0x1000_0000_0000_0000
     ensures !on_curve1(abs1(*ra)) ==> res is Err,
+        on_curve1(abs1(*ra)) ==> res is Ok,
         res is Ok ==> (exists|rb: Seq<u64>| #[trigger] csprng9(rb) && exch9_b(val4(rb), abs1(msk.ppube), abs2(key.de), ida@, idb@, abs1(*ra), klen as nat, abs1(res->Ok_0.0), res->Ok_0.1@)),
 {
     
@@ -1099,6 +1391,8 @@ fn exch_step_2a(
     ensures !on_curve1(abs1(*rb)) ==> res is Err,
         res is Ok ==> res->Ok_0@ == exch9_key(ida@, idb@, abs1(*ra), abs1(*rb),
             gt_pow(e9(G2P(), abs1(msk.ppube)), val4(ra_@)), e9(abs2(key.de), abs1(*rb)), gt_pow(e9(abs2(key.de), abs1(*rb)), val4(ra_@)), klen as nat),
+        on_curve1(abs1(*rb)) && !s_all_zero(exch9_key(ida@, idb@, abs1(*ra), abs1(*rb),
+            gt_pow(e9(G2P(), abs1(msk.ppube)), val4(ra_@)), e9(abs2(key.de), abs1(*rb)), gt_pow(e9(abs2(key.de), abs1(*rb)), val4(ra_@)), klen as nat)) ==> res is Ok,
 {
     hide(f12_bytes); hide(val4);
     proof { lemma_key9_consts(); lemma_p2_generator(); }
@@ -1168,11 +1462,13 @@ fn exch_step_2a(
         }
         fn is_zero(x: &Vec<u8>, klen: usize) -> (r: bool)
             requires klen <= x@.len()
+            ensures r == s_all_zero(x@.subrange(0, klen as int))
         {
             let mut ret = true;
             for i in 0..klen
-                invariant klen <= x@.len()
+                invariant klen <= x@.len(), ret == s_all_zero(x@.subrange(0, i as int))
             {
+                proof { k9_zero_step(x@, i as int); }
                 if x[i] != 0 {
                     ret = false;
                 }
@@ -1183,6 +1479,7 @@ fn exch_step_2a(
         if !is_zero(&sk, klen) {
             break;
         }
+        proof { k9_exch_rej_zero(sk@, klen as int); }
         return Err(Sm9Error::KdfHashError);
     }
     Ok(sk)
